@@ -1183,20 +1183,22 @@ def NumText (t : Str) (n : Nat) : Prop :=
   (∃ y ys, t = y :: ys ∧ (isDigit y = true ∨ y = '$')) ∧
   ∀ rest, endsToken rest → eConst (t ++ rest) = some ((n : Int), rest)
 
-/-- first characters no operand starts with (extends `noOperandStart` by `*` and `,`) -/
-def noStart (x : Char) : Prop := x = ';' ∨ x = '/' ∨ x = '*' ∨ x = ','
+/-- first characters no operand starts with (extends `noOperandStart` by `*`, `,`, `)` and the
+    operator characters that are no prefix operator) -/
+def noStart (x : Char) : Prop :=
+  x = ';' ∨ x = '/' ∨ x = '*' ∨ x = ',' ∨ x = '<' ∨ x = '=' ∨ x = '>' ∨ x = '|' ∨ x = '&' ∨ x = ')'
 
 theorem prefix_heads' (x : Char) (hx : noStart x) : ∀ y ∈ prefixOps, y.1.head? ≠ some x := by
-  rcases hx with rfl | rfl | rfl | rfl <;> decide
+  rcases hx with rfl | rfl | rfl | rfl | rfl | rfl | rfl | rfl | rfl | rfl <;> decide
 
 theorem eConst_none' (x : Char) (xs : Str) (hx : noStart x) : eConst (x :: xs) = none := by
-  rcases hx with rfl | rfl | rfl | rfl <;> simp [eConst, constAlt, lit, takeWhileP, isDigit] <;> decide
+  rcases hx with rfl | rfl | rfl | rfl | rfl | rfl | rfl | rfl | rfl | rfl <;> simp [eConst, constAlt, lit, takeWhileP, isDigit] <;> decide
 
 theorem atom_not_ok' (x : Char) (xs : Str) (hx : noStart x) : ∀ f e r, parseAtom f (x :: xs) ≠ .ok e r := by
   intro f e r h
-  have hid : identText (x :: xs) = none := by rcases hx with rfl | rfl | rfl | rfl <;> simp [identText] <;> decide
-  have hch : ch (x :: xs) = none := by rcases hx with rfl | rfl | rfl | rfl <;> simp [ch]
-  have hpar : x ≠ '(' := by rcases hx with rfl | rfl | rfl | rfl <;> decide
+  have hid : identText (x :: xs) = none := by rcases hx with rfl | rfl | rfl | rfl | rfl | rfl | rfl | rfl | rfl | rfl <;> simp [identText] <;> decide
+  have hch : ch (x :: xs) = none := by rcases hx with rfl | rfl | rfl | rfl | rfl | rfl | rfl | rfl | rfl | rfl <;> simp [ch]
+  have hpar : x ≠ '(' := by rcases hx with rfl | rfl | rfl | rfl | rfl | rfl | rfl | rfl | rfl | rfl <;> decide
   cases f with
   | zero => simp [parseAtom] at h
   | succ f =>
@@ -1780,7 +1782,7 @@ theorem expr_fails' (x : Char) (xs : Str) (hx : noStart x) : expr (x :: xs) = .f
 theorem directiveOp_fails (s : Str) (hs : s = [] ∨ ∃ x xs, s = x :: xs ∧ noStart x) : directiveOp s = .fail := by
   rcases hs with rfl | ⟨x, xs, rfl, hx⟩
   · unfold directiveOp; simp [expr_fails_nil, Peg.string]
-  · have hq : x ≠ '"' := by rcases hx with rfl | rfl | rfl | rfl <;> decide
+  · have hq : x ≠ '"' := by rcases hx with rfl | rfl | rfl | rfl | rfl | rfl | rfl | rfl | rfl | rfl <;> decide
     have hstr : Peg.string (x :: xs) = none := by
       unfold Peg.string
       split
@@ -1811,7 +1813,7 @@ theorem after_skip (more : List (Str × Str × Item)) (hm : itemsOk more) (ws2 c
     obtain ⟨a, b, it⟩ := x
     have ha : blanks a := (hm _ (List.mem_cons_self ..)).1
     right
-    refine ⟨',', b ++ (it.text ++ itemsTail xs) ++ (ws2 ++ c), ?_, Or.inr (Or.inr (Or.inr rfl))⟩
+    refine ⟨',', b ++ (it.text ++ itemsTail xs) ++ (ws2 ++ c), ?_, Or.inr (Or.inr (Or.inr (Or.inl rfl)))⟩
     have hform : itemsTail ((a, b, it) :: xs) ++ (ws2 ++ c) = a ++ ',' :: (b ++ (it.text ++ itemsTail xs) ++ (ws2 ++ c)) := by
       simp [itemsTail]
     rw [hform, space_absorbs a _ ha]
